@@ -36,7 +36,7 @@ def zint(x):
     raise Unsupported(f'not an integer: {x!r}')
 
 
-class SText:
+class SText(sym.Abstract):
     """The whole input: ``arr[0..size)`` are the character codes."""
 
     def __init__(self, p, name='text'):
@@ -80,7 +80,7 @@ class SChar:
         return f'<SChar {self.code}>'
 
 
-class CharList:
+class CharList(sym.Abstract):
     """List of characters; segments are ('span', lo, hi) or ('chr', SChar)."""
 
     def __init__(self, text, segs=()):
@@ -138,7 +138,7 @@ class SpanStr(SStr):
         return None
 
 
-class AbsNodeList:
+class AbsNodeList(sym.Abstract):
     """A list of Nodes of unknown length that an iteration may append to."""
 
     def __init__(self, name):
@@ -160,7 +160,7 @@ class AbsNodeList:
         return f'<list {self.name} + {len(self.appended)}>'
 
 
-class AbsTuple:
+class AbsTuple(sym.Abstract):
     """``tuple(xs)`` / ``*xs`` of an abstract list at a given moment."""
 
     def __init__(self, src, count):
@@ -172,13 +172,13 @@ class AbsTuple:
         return f'<tuple of {self.src!r}>'
 
 
-class AbsMapped:
+class AbsMapped(sym.Abstract):
 
     def __init__(self, tup):
         self.tup = tup
 
 
-class AbsStack:
+class AbsStack(sym.Abstract):
     """Stack of open lists: ``below`` untouched entries under ``top``."""
 
     def __init__(self, eng, p, below, top):
@@ -246,8 +246,8 @@ def install(eng):
 
     eng.getitem_handlers[SText] = text_getitem
     eng.len_handlers[SText] = lambda e, t: SNum(t.size)
-    eng.isinstance_handlers[SText] = lambda e, x, c: issubclass(str, c)
-    eng.isinstance_handlers[SChar] = lambda e, x, c: issubclass(str, c)
+    eng.isinstance_handlers[SText] = lambda e, x, c: isinstance(c, type) and issubclass(str, c)
+    eng.isinstance_handlers[SChar] = lambda e, x, c: isinstance(c, type) and issubclass(str, c)
     eng.truth_handlers[SChar] = lambda e, x: True
     eng.truth_handlers[SText] = lambda e, t: e.truth(mk_bool(t.size > 0))
 
@@ -295,9 +295,9 @@ def install(eng):
         mk_bool(x.length() > 0))
 
     eng.len_handlers[AbsTuple] = tup_len
-    eng.isinstance_handlers[AbsTuple] = lambda e, x, c: issubclass(tuple, c)
-    eng.isinstance_handlers[AbsNodeList] = lambda e, x, c: issubclass(list, c)
-    eng.isinstance_handlers[AbsStack] = lambda e, x, c: issubclass(list, c)
+    eng.isinstance_handlers[AbsTuple] = lambda e, x, c: isinstance(c, type) and issubclass(tuple, c)
+    eng.isinstance_handlers[AbsNodeList] = lambda e, x, c: isinstance(c, type) and issubclass(list, c)
+    eng.isinstance_handlers[AbsStack] = lambda e, x, c: isinstance(c, type) and issubclass(list, c)
 
     def tup_getitem(e, t, key):
         if isinstance(key, int) and key >= 0:
